@@ -181,3 +181,12 @@ Definition sin_aux (aux i : N) : N :=
   let age := aux / 16 in
   bits i 10 4 + 16 * (if N.testbit i 16 then 0 else if age <? 3 then age + 1 else 3).
 Definition sin_aux0 : N := 0 + 16 * 3.
+
+(* Referee for the stream IN endpoint (word layout as above), no environment assumption: the endpoint requests a NAK only in a cycle
+   whose token carries exactly its own 4-bit number, is an IN and is ready for response; a transmission (tx.valid rising) starts only
+   in such a cycle (zero-length packet) or in the cycle after it.  Monitor state: tx.valid and `own token` of the previous cycle. *)
+Definition sin_own_mon (ep m i o : N) : option (N * bool) :=
+  let tok := (bits i 10 4 =? ep) && N.testbit i 14 && N.testbit i 15 in
+  let pv := N.testbit m 0 in let pt := N.testbit m 1 in
+  let v := N.testbit o 1 in let nak := N.testbit o 4 in
+  Some (b2n v + 2 * b2n tok, (negb nak || tok) && (negb (v && negb pv) || tok || pt)).
